@@ -26,8 +26,14 @@ WHERE = {"UsageJourneyStep": ("W1", "s2"), "UsageJourney": ("W1", "uj"), "Device
 STATES = {"W1": [[], [["set", "sv", "server_type", ["c", "on-premise"]]], [["link", "j1", "server", "sv_b"]],
                  [["list", "uj", "uj_steps", ["s2", "s1", "s3"]]], [["set", "j1", "data_stored", ["q", 200.0, "kilobyte"]]]],
           "W4": [[]]}
-VALID_OTHER = {"W1": ["set", "nw", "bandwidth_energy_intensity", ["q", 0.07, "kilowatt_hour / gigabyte"]],
-               "W4": ["set", "nw", "bandwidth_energy_intensity", ["q", 0.07, "kilowatt_hour / gigabyte"]]}
+# companions of the invalid change in a grouped update: a quantity, a link and a list change (all valid on their own)
+VALID_OTHER = {"W1": {"quantity": ["set", "nw", "bandwidth_energy_intensity", ["q", 0.07, "kilowatt_hour / gigabyte"]],
+                      "link": ["link", "j2", "server", "sv_b"], "list": ["list", "s1", "jobs", ["j1", "j2"]]},
+               "W4": {"quantity": ["set", "nw", "bandwidth_energy_intensity", ["q", 0.07, "kilowatt_hour / gigabyte"]],
+                      "link": ["link", "jc", "server", "sv"], "list": ["list", "s1", "jobs", ["jp"]]}}
+GROUPED_MODES = {"valid-then-invalid": ("quantity", True), "invalid-then-valid": ("quantity", False),
+                 "link-then-invalid": ("link", True), "invalid-then-link": ("link", False),
+                 "list-then-invalid": ("list", True)}
 
 
 def prepare():
@@ -251,10 +257,13 @@ def run_assignment(task):
                 setattr(o, param, bad)
             else:
                 from efootprint.abstract_modeling_classes.modeling_update import ModelingUpdate
-                v = VALID_OTHER[fam]
-                valid = [getattr(S.unwrap(m.objs[v[1]]), v[2]), W.mkval(v[3])]
+                companion, first = GROUPED_MODES[mode]
+                v = VALID_OTHER[fam][companion]
+                if (v[1], v[2]) == (obj_name, param):
+                    continue
+                valid = W.changes_live(m, [v])[0]
                 invalid = [getattr(o, param), bad]
-                ModelingUpdate([valid, invalid] if mode == "valid-then-invalid" else [invalid, valid])
+                ModelingUpdate([valid, invalid] if first else [invalid, valid])
         except Exception as ex:  # noqa
             raised = type(ex).__name__
         boot.set_ranks(m.ranks)
@@ -292,7 +301,7 @@ def make_tasks(tier):
     for cls_name in classes:
         ts = triples(cls_name)
         tasks.append({"kind": "construction", "cls": cls_name, "triples": ts})
-    modes = ["single", "valid-then-invalid", "invalid-then-valid"]
+    modes = ["single"] + list(GROUPED_MODES)
     for fam in ("W1", "W4"):
         for hist in (STATES[fam] if tier == "thorough" else STATES[fam][:3]):
             for mode in modes:
